@@ -339,12 +339,12 @@ package rules
 //@   ensures ret0 != nil ==> r.index == old(r.index) && r.knownRules == old(r.knownRules)
 //@   ensures ret0 == nil ==> tclone.n == old(tclone.n) + 1 && r.index == tclone.ret0[old(tclone.n)]
 //@   assert at call Clone#1@1f36d663.1: callarg0 == r.index && mlock.n == old(mlock.n) + 1 && mlock.arg0[old(mlock.n)] == &r.knownRulesMutex && munlock.n == old(munlock.n)
-//@   assert at call removeRulesFrom#1@77c27462.1: callarg1 == tclone.ret0[tclone.n - 1] && callarg1 != r.index
-//@   assert at call addRulesTo#1@af1fb597.1: callarg1 == tclone.ret0[tclone.n - 1] && callarg1 != r.index
+//@   assert at call removeRulesFrom#1@b76ab7d6.1: callarg1 == tclone.ret0[tclone.n - 1] && callarg1 != r.index
+//@   assert at call addRulesTo#1@66ed5e54.1: callarg1 == tclone.ret0[tclone.n - 1] && callarg1 != r.index
 //@   assert at store index#1@1ec014f1.1: stored == tclone.ret0[tclone.n - 1] && mlock.n == old(mlock.n) + 2 && mlock.arg0[old(mlock.n) + 1] == &r.rulesTreeMutex && munlock.n == old(munlock.n)
 //@   assert at store knownRules#1@2837d8d9.1: mlock.n == old(mlock.n) + 1 && munlock.n == old(munlock.n)
-//@   assert at store knownRules#2@dbcc22b9.1: mlock.n == old(mlock.n) + 1 && munlock.n == old(munlock.n)
-//@   assert at call addRulesTo#1: callarg2 == rules
+//@   assert at store knownRules#2@bc606c30.1: mlock.n == old(mlock.n) + 1 && munlock.n == old(munlock.n)
+//@   assert at call addRulesTo#1@66ed5e54.1: callarg2 == rules
 
 //@ func (*repository).DeleteRuleSet
 //@   props C06 C07
